@@ -6,6 +6,7 @@ is executed under several independently drawn kernels (schedule policy and decis
 pre-emption points, temp-name stream, directory-listing order, clock) and -- across
 shards -- under two different PYTHONHASHSEEDs.  One canonical digest per scenario.
 """
+import itertools
 import json
 import math
 import os
@@ -50,8 +51,14 @@ def gen(rng, tier, idx):
     scn = stages.gen_stage(rng, stage)
     n_k = N_KERNELS[tier]
     ks = []
+    perms4 = list(itertools.permutations(range(4)))
     for i in range(n_k):
-        ks.append({'sched': common.draw_sched(rng), 'kcfg': common.draw_kernel_cfg(rng)})
+        kk = {'sched': common.draw_sched(rng), 'kcfg': common.draw_kernel_cfg(rng)}
+        if tier == 'thorough' and i % 3 == 0:
+            # sweep the n! completion orders systematically for pools of up to 4 workers
+            pm = list(perms4[(idx * n_k + i) % len(perms4)]) + [4, 5]
+            kk['sched'] = {'policy': 'perm', 'seed': kk['sched']['seed'], 'perm': pm}
+        ks.append(kk)
     # mapping: vary the worker count among those that induce the same chunks
     if stage in ('mapping', 'mapping_mgr'):
         n = scn['wp']['n_query']
